@@ -3,6 +3,7 @@ import WhVerif.Model.C04Json
 import WhVerif.Model.C09
 import WhVerif.Model.C09File
 import WhVerif.Spec.C09Cap
+import WhVerif.Model.C09Text
 namespace WhVerif.Driver.C09
 open Lean WhVerif.Proto WhVerif.C04 WhVerif.C04.Json WhVerif.C09
 
@@ -74,6 +75,94 @@ def wgroup? (base : Cfg) (j : Json) : Option (String × Cfg × List Record) := d
   some (← getStr? j "chrom", { base with targets := ← (← getList? j "targets").mapM target? },
         ← (← getList? j "records").mapM record?)
 
+/-! text level (Model/C09Text.lean) -/
+open WhVerif.C09.Text in
+def ofHpErr : HpErr → String
+  | .attribute => "AttributeError" | .value => "ValueError" | .assertion => "AssertionError"
+  | .index => "IndexError" | .key => "KeyError"
+
+def optChars? (j : Json) (k : String) : Option (Option (List Char)) :=
+  match j.getObjVal? k with
+  | .ok Json.null => some none
+  | .ok (Json.str s) => some (some s.toList)
+  | _ => none
+
+open WhVerif.C09.Text in
+def hpCol? (j : Json) : Option HpCol :=
+  match j.getObjVal? "hp" with
+  | .ok (Json.str "absent") => some .absent
+  | .ok (Json.str "dropped") => some .dropped
+  | .ok o => (getStr? o "t").map fun s => .text s.toList
+  | _ => none
+
+def pair? (j : Json) : Option (Nat × Nat) := do
+  match ← asArr? j with
+  | [a, b] => some (← asNat? a, ← asNat? b)
+  | _ => none
+
+def region? (j : Json) : Option (Nat × Option Nat) := do
+  match ← asArr? j with
+  | [a, b] => some (← asNat? a, ← optNat? b)
+  | _ => none
+
+open WhVerif.C09.Text in
+def site? (j : Json) : Option Site := do
+  match ← asArr? j with
+  | [c, s, l] => some ⟨← asStr? c, ← asNat? s, ← asNat? l⟩
+  | _ => none
+
+def planItem? (j : Json) : Option (String × Option (Nat → Nat)) := do
+  match ← asArr? j with
+  | [c, w] => some (← asStr? c, if (← asBool? w) then some (· + 1000000) else none)
+  | _ => none
+
+open WhVerif.C09.Text in
+def textHandle (op : String) (j : Json) : Option Json :=
+  if op == "c09.text" then
+    match getNat? j "nal", optChars? j "gt", optChars? j "ps", hpCol? j with
+    | some nal, some gt, some ps, some hp =>
+      let gtv := match gt with | some t => (match parseGT nal t with
+          | some (g, ph) => Json.mkObj [("gt", ofList ofOptNat g), ("phased", Json.bool ph)]
+          | none => Json.str "reject") | none => Json.null
+      let psv := match ps with | some t => (match parsePS t with
+          | some (some n) => ofInt n | some none => Json.str "missing" | none => Json.str "reject") | none => Json.null
+      let hpv := match hp with
+        | .text t => (match hpValOfText t with
+          | .ok (some l) => ofList (fun bh => Json.arr #[ofNat bh.1, ofNat bh.2]) l
+          | .ok none => Json.str "none"
+          | .error e => Json.str (ofHpErr e))
+        | _ => Json.null
+      let res := match callPhasesText ⟨nal, gt, ps, hp⟩ with
+        | .ok (hpp, gp) => Json.mkObj [("hp", ofPhase hpp), ("gtps", ofPhase gp)]
+        | .error (.hp e) => Json.mkObj [("error", Json.str (ofHpErr e))]
+        | .error .record => Json.mkObj [("error", Json.str "record")]
+      some (Json.mkObj [("gtv", gtv), ("psv", psv), ("hpv", hpv), ("res", res)])
+    | _, _, _, _ => some badInput
+  else if op == "c09.render" then
+    match (getList? j "pairs").bind (·.mapM pair?), (getObj? j "ps").bind optInt?, (getList? j "gt").bind (·.mapM allele?),
+          getBool? j "phased" with
+    | some pairs, some ps, some gt, some ph =>
+      some (Json.mkObj [("hp", Json.str (String.ofList (renderHP pairs))), ("ps", Json.str (String.ofList (renderPS ps))),
+                        ("gt", Json.str (String.ofList (renderGT gt ph)))])
+    | _, _, _, _ => some badInput
+  else if op == "c09.passthrough" then
+    match (getObj? j "file").bind strList?, (getList? j "plan").bind (·.mapM planItem?) with
+    | some file, some plan =>
+      let recs : List (String × Nat) := file.zip (List.range file.length)
+      match runAug ⟨none, recs⟩ plan with
+      | .ok outs => some (Json.mkObj [("outs", ofList ofNatList outs)])
+      | .error _ => some (Json.mkObj [("error", Json.str "AssertionError")])
+    | _, _ => some badInput
+  else if op == "c09.fetch" then
+    match (getList? j "sites").bind (·.mapM site?), getStr? j "chrom", (getList? j "regions").bind (·.mapM region?) with
+    | some sites, some chrom, some regions =>
+      let file : List (Site × Nat) := sites.zip (List.range sites.length)
+      some (Json.mkObj [("fetch", ofNatList ((fetchChrom (·.1) file chrom).map (·.2))),
+                        ("regions", ofNatList ((fetchRegions (·.1) file chrom regions).map (·.2))),
+                        ("runs", ofList (fun g => Json.arr #[Json.str g.1, ofNatList (g.2.map (·.2))]) (runsOf (·.1.chrom) file))])
+    | _, _, _ => some badInput
+  else none
+
 /-- ops of property C09 are named `c09.<name>`; return `none` for ops that are not ours -/
 def handle (op : String) (j : Json) : Option Json :=
   if op == "c09.decode" then
@@ -138,5 +227,5 @@ def handle (op : String) (j : Json) : Option Json :=
       some (ofList (fun i => Json.mkObj [("depth", ofNat (Cap.depth ps spans i)), ("fits", Json.bool (Cap.fits cap ps spans i))])
               (List.range spans.length))
     | _, _, _ => some badInput
-  else none
+  else textHandle op j
 end WhVerif.Driver.C09
